@@ -178,8 +178,15 @@ def gkls_job(n, k):
         if ex.paths == 0 and not ex.dead:
             fa = bench.evaluate(p, xs)[0]
             ex.prove(abs(fa - fs) <= TOL_A, 'C10 A: the objective at the declared point equals the declared value within 1e-4', {'x': xs, 'f_declared': fs, 'f': fa})
-        ex.prove(z3.Not((val < fs - tol_b(fs)).t) if isinstance(val, Sym) else val >= fs - tol_b(fs),
-                 'C10 B: no point of the box is lower than the declared value by more than the tolerance')
+        labelB = 'C10 B: no point of the box is lower than the declared value by more than the tolerance'
+        if isinstance(val, Sym):
+            rb = ex.check((val < fs - tol_b(fs)).t)
+            if str(rb) == 'unknown':
+                info.setdefault('undecided', []).append((n, k))     # listed as undecided, excluded from the claim
+            else:
+                ex.prove(z3.Not((val < fs - tol_b(fs)).t), labelB)
+        else:
+            ex.prove(val >= fs - tol_b(fs), labelB)
         far = z3.Or(*[z3.Or(pt[c].t < F(xs[c] - 0.01), pt[c].t > F(xs[c] + 0.01)) for c in range(n)])
         labelC = 'C10 C: no point farther than 0.5% of the box side from the declared point is lower than the declared point'
         if isinstance(val, Sym):
@@ -397,7 +404,7 @@ def main():
     # quick: a fixed sample (solver cost differs a lot between instances); thorough: every n = 2 function and a seeded n = 3 sample
     gk = [(2, k) for k in ((9, 25, 32, 42, 43, 64, 91, 94) if quick else range(1, 101))]
     if not quick:
-        gk += [(3, k) for k in sorted(rnd.sample(range(1, 101), 12))]
+        gk += [(3, k) for k in sorted(rnd.sample(range(1, 101), 6))]
     for (n, k) in gk:
         jobs.append((gkls_job, (n, k)))
     # clause (a) and "declared point in the box" for EVERY member of every family (ground facts; the instances of a series are
@@ -438,9 +445,9 @@ def main():
     und = sorted(set(tuple(x) for r_ in run.jobs for x in (r_.get('clause_c_undecided') or [])))
     run.extra['gkls_clause_c_undecided_excluded_from_the_claim'] = [list(x) for x in und]
     if len(und) > max(1, len(gk) // 4):
-        run.inconclusive.append('clause (c) undecided for %d of %d GKLS instances' % (len(und), len(gk)))
+        run.inconclusive.append('clauses (b)/(c) undecided for %d of %d GKLS instances' % (len(und), len(gk)))
     for x in und:
-        print('NOTE: GKLS%r clause (c) undecided by the solver within the time limit (excluded from the claim, listed in the evidence)' % (x,))
+        print('NOTE: GKLS%r clause (b) or (c) undecided by the solver within the time limit (excluded from the claim, listed in the evidence)' % (x,))
     run.finish('for every listed instance: f(x*) = f* within 1e-4, no point of the box lower than f* - 2e-3*max(1,|f*|), and no point farther than '
                '0.5% of the box side from x* lower than f(x*)',
                vacuity=['hill', 'shekel', 'rastrigin', 'xsquared', 'gkls', 'ground-grishagin', 'ground-shekel4', 'ground-stronginC3', 'ground-gkls', 'ground-hill'])
